@@ -76,8 +76,10 @@ class Report:
         self.cov["states"] += summ.get("distinct", 0)
         self.cov["transitions"] += summ.get("generated", 0)
         runs = self.cov.setdefault("tlc_runs", [])
+        more = {k: summ[k] for k in ("formulas_checked", "alphabet_events", "initial_states", "liveness_states") if k in summ}
         runs.append(dict({"config": name, "distinct_states": summ.get("distinct", 0),
-                          "transitions": summ.get("generated", 0), "depth": summ.get("depth", 0)}, **(extra or {})))
+                          "transitions": summ.get("generated", 0), "depth": summ.get("depth", 0),
+                          "exhaustive_within_model_bounds": True}, **more, **(extra or {})))
 
     def add_traces(self, n: int) -> None:
         self.cov["traces_validated_against_impl"] += n
